@@ -5,6 +5,11 @@ V = os.path.dirname(os.path.dirname(os.path.abspath(__file__)))
 ALL = ['C%02d' % i for i in range(1, 20)]
 
 CHECKS = {
+ 'C11': dict(
+   technique='static decision-table extraction: path enumeration over the T-E/C-L and Host arbitration regions, rows of the statement checked on every path with untested trigger atoms counted as possibly true; flag-namespace rule (tested flags have raise sites)',
+   text='Decides for every path of the arbitration code: each ambiguity trigger named in the statement leads to the required indicator(s) and framing decision (request and response arms), no indicator is raised where no row applies, invalid-host indicators are raised under both the syntax and the validation result, a repeated header always carries REPEATED. Three recorded findings (D7 dead FOLDED flag, D8 repeated/folded C-L not examined next to an unsupported T-E). Not decided: robustness of the token/number parsers to spelling of header values.',
+   note='Header order / case / whitespace independence rests on the case-folding table getters (C17) and on values, which are not tracked.',
+   ref='§4.11'),
  'C06': dict(
    technique='static pairing rules by path enumeration over the body states: delivery <-> entity accounting, sibling agreement of the five bulk-consume blocks, wire hand-over <-> message accounting, must-precede for the end-of-body marker',
    text='Decides for all paths: every body-data delivery is preceded exactly once by entity_len += that record\'s len; after a successful bulk hand-over the read/consume/stream offsets (and message length, and remaining length) move by exactly the amount handed over, once, with the amount min(remaining, available); every wire hand-over is accounted in message_len (one recorded finding: REQ_FINALIZE unexpected body); the end-of-body marker precedes the completion hook whenever a body exists. Not decided: that the concatenation of deliveries equals the entity body.',
